@@ -352,7 +352,7 @@ type Store struct {
 	// fault plan
 	FailAt     int    // fail the k-th storage call (1-based); 0 = off
 	FailMethod string // fail every call of this method
-	FailKind   string // "error" | "deadline"
+	FailKind   string // "error" | "deadline" | "canceled" | "oidc" | "dupcode" | "typednil"
 	calls      int
 
 	ATLifetime  time.Duration // lifetime of access tokens handed to the framework
@@ -409,6 +409,10 @@ func (s *Store) enter(ctx context.Context, method string, args ...string) error 
 		} else if s.FailKind == "dupcode" {
 			// the sentinel the storage contract names for a user code that is already in use
 			err = op.ErrDuplicateUserCode
+		} else if s.FailKind == "canceled" {
+			// a storage whose own machinery gave up (closing connection pool, de-duplicated query whose first caller left): the
+			// error chain contains context.Canceled although the request that is being served is still alive
+			err = fmt.Errorf("storage: query aborted: %w", context.Canceled)
 		} else if s.FailKind == "oidc" {
 			// a storage that answers every outage with one and the same *oidc.Error value
 			err = ErrInjectedOIDC
